@@ -399,7 +399,7 @@ class XsdComplexType(XsdType, ValidationMixin[Union[ElementType, str, bytes], An
                     (self.mixed or content or default_open_content.applies_to_empty):
                 self.open_content = default_open_content
 
-        if self.open_content and content and \
+        if self.open_content and \
                 not self.open_content.is_restriction(base_type.open_content):
             msg = _("{0!r} is not a restriction of the base type {1!r}")
             self.parse_error(msg.format(self.open_content, base_type.open_content))
